@@ -49,6 +49,7 @@ type vWorld struct {
 	nStanding int
 	// the registered filter a batch harness selected through (nil: unregistered), see batchEpilogue
 	regBatch *Filter0
+	standing [1]*Filter1[vPos]
 	relShape bool // built by vShapeRel
 }
 
@@ -592,7 +593,7 @@ func (W *vWorld) checkAll(tag string) {
 // every structural operation of every step harness then also maintains the filter cache
 // (tables added / freed / recycled), which invCache characterises exactly.
 func (W *vWorld) standingFilters(rel bool) {
-	NewFilter1[vPos](W.w).Register()
+	W.standing[0] = NewFilter1[vPos](W.w).Register()
 	NewFilter2[vPos, vVel](W.w).Without(C[vTag]()).Register()
 	W.nStanding = 2
 	if rel {
